@@ -4,6 +4,7 @@
 use vstd::prelude::*;
 use std::mem;
 verus! {
+global layout usize is size == 8;
 //@include period.rs
 //@include std_specs.rs
 
